@@ -57,7 +57,6 @@ DefV == Str("<default>")                                          \* the default
 
 Empty == <<>>                                                     \* the function with empty domain
 Put(f, x, y) == [z \in DOMAIN f \cup {x} |-> IF z = x THEN y ELSE f[z]]
-ToSet(seq) == {seq[i] : i \in 1..Len(seq)}
 SetMax(S) == CHOOSE x \in S : \A y \in S : y <= x
 
 Lit(s) == [t |-> "lit", s |-> s]
@@ -293,7 +292,7 @@ Spec == Init /\ [][Next]_vars
 (* INVARIANTS of every reachable store: the transcription satisfies the documented lookups *)
 Probes == Sections \X Keys
 StoreOk(o) ==
-    /\ \A p \in Probes : \A c \in LookupClauses : Holds(c, o, ObsCode(o, p[1], p[2]))
+    /\ \A p \in Probes : LET ob == ObsCode(o, p[1], p[2]) IN \A c \in LookupClauses : Holds(c, o, ob)
     /\ \A s \in Sections : AllOptsAgree(o, s, AllOptsCode(o, s))
 LookupsOk == StoreOk(st.cfg.o) /\ StoreOk(st.base.o)
 
@@ -393,6 +392,7 @@ FileOpEffect(s0, op, s1) ==
     /\ op.op = "setfile" => s1.files[op.name].present /\ s1.files[op.name].ent[<<op.s, op.k>>] = op.raw
 
 StepEffects ==
+    n < MaxOps =>       \* (the calls that the model actually takes from this state)
     /\ \A op \in AddOps("cfg", CfgAdds) \cup AddOps("base", BaseAdds) : AddEffect(st, op, Step(st, op))
     /\ \A op \in AddAllOps : AddAllEffect(st, op, Step(st, op))
     /\ \A op \in LoadOps : LoadEffect(st, op, Step(st, op))
@@ -401,6 +401,7 @@ StepEffects ==
 
 (* store + load round trip: what ConfigFile.store wrote is what load_config reads back (plain values verbatim) *)
 StoreLoadRoundTrip ==
+    n = 0 =>            \* (does not depend on the state: the stored file replaces whatever was there)
     \A sop \in StoreOps :
         LET s1 == Step([st EXCEPT !.cfg.name = sop.name], sop)
             s2 == Step(s1, [op |-> "load", au |-> FALSE])
